@@ -47,6 +47,16 @@ Definition documented_loops_test_mode : list (string * string) := [
   ("stgutg.RegisterUE", "ue_registration"); ("stgutg.EstablishPDU", "ue_pdu"); ("stgutg.ServiceRequest", "ue_service");
   ("stgutg.ReleasePDU", "ue_pdu_release"); ("stgutg.DeregisterUE", "ue_deregistration") ].
 Definition documented_loop_traffic_mode : string * string := ("stgutg.RegisterUE", "ue_number").
+(* "Number of repetitions for each test (Test mode)": each test is repeated as many times as its own key says, limited
+   only by the number of UEs that completed its prerequisite (a session needs a registered UE; service request and
+   release need a session; deregistration needs a registered UE).  So the number of repetitions of each procedure is
+   the minimum of exactly these keys, and of no other. *)
+Definition documented_repetitions_test_mode : list (string * list string) := [
+  ("stgutg.RegisterUE", ["ue_registration"]);
+  ("stgutg.EstablishPDU", ["ue_registration"; "ue_pdu"]);
+  ("stgutg.ServiceRequest", ["ue_registration"; "ue_pdu"; "ue_service"]);
+  ("stgutg.ReleasePDU", ["ue_registration"; "ue_pdu"; "ue_pdu_release"]);
+  ("stgutg.DeregisterUE", ["ue_registration"; "ue_deregistration"]) ].
 
 (* command line: argv without the program name *)
 Inductive mode := TrafficMode | TestMode | NoMode.
